@@ -213,8 +213,15 @@ impl Opcode for JumpI {
         // immediate, allowing us to actually alter the program counter
         match util::validate_jump_destination(&counter, vm) {
             Ok(target) => {
+                // The new thread starts by executing the target, so if this thread has already
+                // executed the target as often as the iteration limit allows there is nothing
+                // left for the new thread to do.
+                let target_exhausted = vm.state()?.visited_instructions().at_visit_limit(target)?;
+
                 // We only want to fork up to the provided limit, so we check if we can first
-                if vm.jump_targets_mut().fork_to(instruction_pointer, target)? {
+                if !target_exhausted
+                    && vm.jump_targets_mut().fork_to(instruction_pointer, target)?
+                {
                     // If we do have a valid jump target, we need to fork off an execution thread so
                     // that both branches can be executed. Note that the `VM` will step from the
                     // target, but as it is a JUMPDEST no-op this is fine.
